@@ -107,7 +107,8 @@ def check(case, sub="photonic"):
         ]
     metrics = {}
     # decoy: the first half of the operations on a circuit with MORE registers (an idle emitter and two idle photons)
-    half = dict(desc, ne=desc["ne"] + 1, np=desc["np"] + 2, ops=desc["ops"][: len(desc["ops"]) // 2])
+    half = dict(desc, ne=desc["ne"] + 1, np=desc["np"] + 2,
+                ops=desc["ops"][: len(desc["ops"]) // 2] + [["H", "e", desc["ne"]], ["P", "e", desc["ne"]]] * 15)  # a busy extra emitter
     decoy = gc.build(half)
 
     def evaluate_all(phase):
